@@ -367,7 +367,7 @@ def c06(tier, seed):
              MaxOrders=3, MaxOps=4 if q else 5, need=("op_modify", "has_trade", "resting_partially_filled_or_resized"),
              timeout=300 if q else 1500)
     book_gen(ck, "gen_modify_cancel_mkt", Ops=["cap", "modify", "cancel"], Prices=[10, 11], ModPrices=[-1, 10, 11],
-             ModVols=MODV, MaxOrders=3 if q else 4, MaxOps=4 if q else 5, need=("op_modify", "cancelled_order"), timeout=300 if q else 1500)
+             ModVols=["smaller", "larger"] if q else MODV, MaxOrders=3 if q else 4, MaxOps=4 if q else 5, need=("op_modify", "cancelled_order"), timeout=300 if q else 1500)
     cross(ck, q, "ties_modify", "off_modify", "split_modify", "big_volumes", "top_price")
     # modification through the environments: a queued modify instruction is applied when the step processes it, to the order
     # as it is THEN ("omitted fields keep their current values" - current at application, e.g. after a partial fill earlier
@@ -375,7 +375,7 @@ def c06(tier, seed):
     env_gen(ck, "gen_env_modify_partial", kind="env", seeds=8 if q else 32, StepSize=3, Ops=["new", "modify", "step"], Kinds=["L"], Prices=[10, 11],
             Vols=[1, 2], ModPrices=[-1, 10, 11], ModVolsAbs=[-1, 1, 3], MaxSubmits=3 if q else 4, MaxBatch=2, MaxSteps=2, MaxOrders=2,
             need=("has_modify", "has_trade", "schedule_matters"), timeout=400 if q else 1800)
-    env_gen(ck, "gen_menv_modify_partial", kind="menv", seeds=8 if q else 32, Ticks=(1, 1), StepSize=2, Ops=["new", "modify", "step"], Kinds=["L"], Prices=[10, 11],
+    env_gen(ck, "gen_menv_modify_partial", kind="menv", seeds=4 if q else 32, Ticks=(1, 1), StepSize=2, Ops=["new", "modify", "step"], Kinds=["L"], Prices=[10, 11],
             Vols=[1, 2], ModPrices=[10, 11], ModVolsAbs=[-1], MaxSubmits=3, MaxBatch=2, MaxSteps=2, MaxOrders=2,
             need=("has_modify", "has_trade"), timeout=400 if q else 1800)
     env_traces(ck, "rand_env_modify", {"p_modify": 0.35, "nprices": 5, "max_batch": 8, "p_step": 0.15}, files=4 if q else 32, runs=3 if q else 6, ops=160, hook=False)
